@@ -12,7 +12,7 @@ import (
 )
 
 func init() {
-	register("C09", "Structural clauses of the walk contract: the protocol's path comparison is evaluated under every one of the 13 weak orderings of (byte of p1, byte of p2, separator) and must put the separator lowest and otherwise follow byte order, with the length difference as the tail (finite-ordering evaluation of the SSA branch conditions, exhaustive); the root is never reported; stats are built truthfully by one constructor from lstat-based sources (shared with C01); the inode map is per walk and link names come only from a hit under Nlink>1; sub-root walks prefix path, non-symlink link names and the reported path; the walker's root is the checked result of filepath.EvalSymlinks, tested to be a directory; enumeration is delegated to filepath.WalkDir on root+target. Extended attributes are listed for every kind of entry (loadXattr cannot succeed without llistxattr, mkstat not without loadXattr). Does not decide 'every entry exactly once' or directory-before-contents (contract of filepath.WalkDir, trusted).", runC09)
+	register("C09", "Structural clauses of the walk contract: the protocol's path comparison is evaluated under every one of the 13 weak orderings of (byte of p1, byte of p2, separator) and must put the separator lowest and otherwise follow byte order, with the length difference as the tail (finite-ordering evaluation of the SSA branch conditions, exhaustive); the root is never reported; stats are built truthfully by one constructor from lstat-based sources (shared with C01); the inode map is per walk and link names come only from a hit under Nlink>1; sub-root walks prefix path, non-symlink link names and the reported path; the walker's root is the checked result of filepath.EvalSymlinks, tested to be a directory; enumeration is delegated to filepath.WalkDir on root+target. Extended attributes are listed for every kind of entry (loadXattr cannot succeed without llistxattr, mkstat not without loadXattr). loadXattr reads each listed name from the listed path and records it under that name, records every successful read, stores a non-empty result and passes over only names with the platform's skipped prefix; sub-root link names are rewritten only when present (absolute symlink targets only), with the sub-root's name first; every byte access of the path comparison is guarded by index < length. Does not decide 'every entry exactly once' or directory-before-contents (contract of filepath.WalkDir, trusted).", runC09)
 	register("C12", "Structural clauses of the stream validator: a fatal test exists for every lexical rejection class (unclean, absolute, '.', '..', '../' prefix), the last-child comparison rejects the orderings equal and greater and accepts less, a foreign parent is rejected, directory levels are opened only for non-delete directories, and the path comparison is the separator-lowest byte order under all 13 weak orderings of its atoms (exhaustive finite-ordering evaluation). Does not decide the 'if and only if' for all sequences nor the binary search over the open-directory stack.", runC12)
 }
 
@@ -29,7 +29,142 @@ func runC09(c *Ctx) {
 		r09_9(c, "R09.9")
 		// true stats: device numbers decoded in full (shared with C02)
 		r02_8(c, "R09.10")
+		r09_11(c, "R09.11")
 	}
+}
+
+// R09.11: what listxattr names is what the stat carries.
+//
+// loadXattr lists the attribute names of the entry, reads each value and
+// records name -> value in a map that becomes Stat.Xattrs. Decided on all
+// paths: the value is read from the same path under the listed name; a
+// successful read cannot reach the next name without being recorded; with a
+// non-empty listing and a non-empty map no success return is reached without
+// the map having been stored; a name that does not carry the skipped prefix
+// cannot be passed over without being read.
+func r09_11(c *Ctx, rule string) {
+	c.R.Rule(rule, "loadXattr: each listed name is read from the same path (no-follow) and recorded under that name; a successful read is recorded before the next name; a non-empty result is stored in Stat.Xattrs before success; only names with the platform's skipped prefix are passed over")
+	fn := c.Fn(rule, "fsutil.loadXattr")
+	if fn == nil {
+		return
+	}
+	base := c.name(fn)
+	var list, get *ssa.Call
+	for _, call := range eng.Calls(fn) {
+		cv, ok := call.(*ssa.Call)
+		if !ok {
+			continue
+		}
+		switch c.P.CalleeName(call) {
+		case "github.com/containerd/continuity/sysx.LListxattr":
+			list = cv
+		case "github.com/containerd/continuity/sysx.LGetxattr":
+			get = cv
+		}
+	}
+	if list == nil || get == nil {
+		c.R.OK(rule, base+"/shape", c.P.Pos(fn.Pos()), "no LListxattr/LGetxattr pair (platform without xattrs, or a shape this rule does not interpret)")
+		return
+	}
+	fromList := func(v ssa.Value) bool {
+		return c.DerivesFrom(v, func(y ssa.Value) bool { return y == ssa.Value(list) }, 8)
+	}
+	samePath := eng.SameValue(eng.Canon(get.Call.Args[0]), eng.Canon(list.Call.Args[0]))
+	c.R.Check(samePath && fromList(get.Call.Args[1]) && !fromList(get.Call.Args[0]), rule, c.siteName(get)+"/args", c.pos(get), "LGetxattr(the listed path, a listed name)", "the value is not read as LGetxattr(path that was listed, name from the listing)")
+	var upd *ssa.MapUpdate
+	eng.Instrs(fn, func(in ssa.Instruction) {
+		if mu, ok := in.(*ssa.MapUpdate); ok && c.DerivesFrom(mu.Value, func(y ssa.Value) bool { return y == ssa.Value(get) }, 4) {
+			upd = mu
+		}
+	})
+	if upd == nil {
+		c.R.Fail(rule, base+"/records", c.pos(get), "the value read is not recorded in a map")
+		return
+	}
+	c.R.Check(eng.SameValue(eng.Canon(upd.Key), eng.Canon(get.Call.Args[1])), rule, base+"/records-under-its-name", c.pos(upd), "recorded under the name it was read for", "a value is recorded under a key other than the name it was read for")
+	// the start of an iteration over the listing: the element access
+	var iter ssa.Instruction
+	eng.InstrsShallow(fn, func(in ssa.Instruction) {
+		switch v := in.(type) {
+		case *ssa.IndexAddr:
+			if fromList(v.X) {
+				iter = in
+			}
+		case *ssa.Index:
+			if fromList(v.X) {
+				iter = in
+			}
+		case *ssa.Next:
+			iter = in
+		}
+	})
+	isNextOrReturn := func(in ssa.Instruction) bool {
+		if iter != nil && in == iter {
+			return true
+		}
+		r, ok := in.(*ssa.Return)
+		return ok && r.Parent() == fn
+	}
+	// a successful read is recorded
+	if ek, _, has := c.errValueOf(get); has {
+		x := c.explorer(fn)
+		x.From = get
+		x.Assume = map[string]bool{"(" + ek + "==nil)": true}
+		x.Barrier = func(in ssa.Instruction, st *eng.State) bool { return in == ssa.Instruction(upd) }
+		x.Target = func(in ssa.Instruction, st *eng.State) bool { return isNextOrReturn(in) }
+		x.StopAtTarget = true
+		hits := x.Run()
+		c.R.Check(len(hits) == 0 && !x.Exhausted, rule, base+"/successful-read-recorded", c.pos(get), "a value read without error is recorded before the next name", "a value read without error can be dropped (the test of the read's error is inverted?): the stat lacks attributes the entry has")
+	}
+	// a non-empty result is stored
+	var store *ssa.Store
+	for _, s := range fieldStoresIn(fn, "types.Stat.Xattrs") {
+		store = s
+	}
+	if store == nil {
+		c.R.Fail(rule, base+"/stored", c.P.Pos(fn.Pos()), "loadXattr never assigns Stat.Xattrs")
+		return
+	}
+	if lk, _, has := c.errValueOf(list); has {
+		x := c.explorer(fn)
+		x.Assume = c.lenPins(fn, x, false, func(ssa.Value) bool { return true })
+		x.Assume["("+lk+"==nil)"] = true
+		x.Barrier = func(in ssa.Instruction, st *eng.State) bool { return in == ssa.Instruction(store) }
+		x.Target = func(in ssa.Instruction, st *eng.State) bool { return x.IsSuccessReturn(in, st) }
+		x.StopAtTarget = true
+		hits := x.Run()
+		c.R.Check(len(hits) == 0 && !x.Exhausted, rule, base+"/non-empty-result-stored", c.pos(store), "with names listed and values recorded, success is not reached without Stat.Xattrs assigned", "with a non-empty listing and a non-empty map a success return is reachable without Stat.Xattrs having been assigned (an emptiness test is inverted?)")
+	}
+	// only names with the skipped prefix are passed over
+	pins := map[string]bool{}
+	shape := true
+	x := c.explorer(fn)
+	eng.Instrs(fn, func(in ssa.Instruction) {
+		call, ok := in.(*ssa.Call)
+		if !ok || c.P.CalleeName(call) != "strings.HasPrefix" {
+			return
+		}
+		_, k0 := eng.ConstString(call.Call.Args[0])
+		_, k1 := eng.ConstString(call.Call.Args[1])
+		switch {
+		case k1 && !k0:
+			pins[x.RegKey(call)] = false
+		case k0:
+			shape = false
+		}
+	})
+	c.R.Check(shape, rule, base+"/skip-test-shape", c.P.Pos(fn.Pos()), "the skipped-prefix test asks whether the name starts with the constant", "a prefix test in loadXattr has the constant prefix as the string and the name as the prefix (arguments swapped?)")
+	if iter == nil {
+		c.R.OK(rule, base+"/unskipped-name-read", c.P.Pos(fn.Pos()), "no loop over the listing of a shape this rule interprets")
+		return
+	}
+	x.From = iter
+	x.Assume = pins
+	x.Barrier = func(in ssa.Instruction, st *eng.State) bool { return in == ssa.Instruction(get) }
+	x.Target = func(in ssa.Instruction, st *eng.State) bool { return isNextOrReturn(in) }
+	x.StopAtTarget = true
+	hits := x.Run()
+	c.R.Check(len(hits) == 0 && !x.Exhausted, rule, base+"/unskipped-name-read", c.pos(get), "a name without the skipped prefix is read before the next name", "a listed name that does not carry the skipped prefix can be passed over without being read (the skip test is inverted?): the stat lacks attributes the entry has")
 }
 
 func runC12(c *Ctx) {
@@ -265,6 +400,66 @@ func r09_1(c *Ctx, rule string) {
 	x.Run()
 	okTail := len(tail) == 1 && tail[0] == "(len(p:"+fn.Params[0].Name()+")-len(p:"+fn.Params[1].Name()+"))"
 	c.R.Check(okTail, rule, con+"/tail", c.P.Pos(fn.Pos()), "common prefix exhausted: returns len(p1)-len(p2)", fmt.Sprintf("when one path is a prefix of the other ComparePath returns %v, not len(p1)-len(p2)", tail))
+	// every byte access is guarded by index < (a value not above both lengths):
+	// on the equality edge of <= the access runs one past the shorter path
+	// exactly when one path is a prefix of the other (parent and child)
+	lenBound := func(v ssa.Value) bool {
+		return c.DerivesFrom(v, func(y ssa.Value) bool {
+			call, ok := y.(*ssa.Call)
+			if !ok || c.P.CalleeName(call) != "builtin:len" {
+				return false
+			}
+			_, isP := eng.Strip(call.Call.Args[0]).(*ssa.Parameter)
+			return isP
+		}, 6)
+	}
+	na, guarded := 0, 0
+	eng.InstrsShallow(fn, func(in ssa.Instruction) {
+		var lkX, lkIndex ssa.Value
+		switch v := in.(type) {
+		case *ssa.Lookup:
+			lkX, lkIndex = v.X, v.Index
+		case *ssa.Index:
+			lkX, lkIndex = v.X, v.Index
+		default:
+			return
+		}
+		if _, isP := eng.Strip(lkX).(*ssa.Parameter); !isP {
+			return
+		}
+		na++
+		for _, blk := range fn.Blocks {
+			iff, isIf := blk.Instrs[len(blk.Instrs)-1].(*ssa.If)
+			if !isIf {
+				continue
+			}
+			b, isB := iff.Cond.(*ssa.BinOp)
+			if !isB {
+				continue
+			}
+			var edge int
+			switch {
+			case b.Op == token.LSS && eng.SameValue(b.X, lkIndex) && lenBound(b.Y): // i < n
+				edge = 0
+			case b.Op == token.GTR && eng.SameValue(b.Y, lkIndex) && lenBound(b.X): // n > i
+				edge = 0
+			case b.Op == token.GEQ && eng.SameValue(b.X, lkIndex) && lenBound(b.Y): // i >= n: false edge
+				edge = 1
+			case b.Op == token.LEQ && eng.SameValue(b.Y, lkIndex) && lenBound(b.X): // n <= i: false edge
+				edge = 1
+			default:
+				continue
+			}
+			t := blk.Succs[edge]
+			if len(t.Preds) == 1 && (t == in.Block() || t.Dominates(in.Block())) {
+				guarded++
+				return
+			}
+		}
+	})
+	if na > 0 {
+		c.R.Check(guarded == na, rule, con+"/index-below-both-lengths", c.P.Pos(fn.Pos()), "every byte access is dominated by index < bound", fmt.Sprintf("%d of %d byte accesses of ComparePath are not dominated by a strict `index < length` test: comparing a directory with an entry below it reads one byte past the shorter path", na-guarded, na))
+	}
 	// the loop bound is min(len(p1), len(p2))
 	bound := loopCond.Y
 	okBound := c.DerivesFrom(bound, func(v ssa.Value) bool { return c.isCallValueTo(v, "fsutil.min", "builtin:min") }, 3)
@@ -520,11 +715,86 @@ func r09_5(c *Ctx, rule string) {
 			symArm++
 		}
 	}
+	// the sub-root's name comes first in every such Join
+	for i, s := range ls {
+		if parts, ok := c.joinParts(s.Val); ok && len(parts) >= 2 {
+			c.R.Check(parts[len(parts)-1] == "field:types.Stat.Linkname", rule, fmt.Sprintf("%s/linkname-store#%d/order", base, i+1), c.pos(s), "the old link name is the last element of the Join", "the Join that prefixes the sub-root name has the old link name in front of it")
+		}
+	}
+	// a link name is only ever rewritten when there is one, and a symlink's
+	// target only when it is absolute: with the emptiness test pinned to
+	// "empty", or the symlink test to "symlink" and the absolute-path test to
+	// "relative", no store to Linkname is reachable
+	emptyPins, absPins := map[string]bool{}, map[string]bool{}
+	absShape := true
+	eng.Instrs(lit, func(in ssa.Instruction) {
+		switch b := in.(type) {
+		case *ssa.BinOp:
+			if b.Op != token.EQL && b.Op != token.NEQ || b.Parent() != lit {
+				return
+			}
+			for i, o := range []ssa.Value{b.X, b.Y} {
+				if k, isK := eng.ConstString([]ssa.Value{b.Y, b.X}[i]); isK && k == "" && isFieldLoad(o, "types.Stat.Linkname") {
+					emptyPins[x.RegKey(b)] = b.Op == token.EQL
+				}
+			}
+		case *ssa.Call:
+			if b.Parent() != lit {
+				return
+			}
+			switch c.P.CalleeName(b) {
+			case "strings.HasPrefix":
+				k0, is0 := eng.ConstString(b.Call.Args[0])
+				k1, is1 := eng.ConstString(b.Call.Args[1])
+				if is1 && k1 == "/" && isFieldLoad(b.Call.Args[0], "types.Stat.Linkname") {
+					absPins[x.RegKey(b)] = false
+				} else if (is0 && k0 == "/") || (is1 && k1 == "/") {
+					absShape = false
+				}
+			case "path.IsAbs", "path/filepath.IsAbs":
+				if isFieldLoad(b.Call.Args[0], "types.Stat.Linkname") {
+					absPins[x.RegKey(b)] = false
+				}
+			}
+		}
+	})
+	c.R.Check(absShape, rule, base+"/absolute-test-shape", c.P.Pos(lit.Pos()), "the absolute-target test asks whether the link name starts with the separator", "a prefix test with \"/\" in this callback does not ask whether the link name starts with it (arguments swapped?)")
+	isLinkStore := func(in ssa.Instruction) bool {
+		for _, s := range ls {
+			if in == ssa.Instruction(s) {
+				return true
+			}
+		}
+		return false
+	}
+	if len(emptyPins) > 0 {
+		c.ObUnreachable(rule, base+"/rewrite-only-when-named", lit, emptyPins, isLinkStore, "a store to Linkname", "the entry has no link name (every plain file would become a hard link to the sub-root)")
+	} else {
+		c.R.OK(rule, base+"/rewrite-only-when-named", c.P.Pos(lit.Pos()), "no emptiness test of the link name of a shape this rule interprets")
+	}
+	if len(absPins) > 0 && len(sym) > 0 {
+		as := map[string]bool{}
+		for _, k := range sym {
+			as[k] = true
+		}
+		for k, v := range absPins {
+			as[k] = v
+		}
+		for k, v := range emptyPins {
+			as[k] = !v
+		}
+		c.ObUnreachable(rule, base+"/relative-symlink-kept", lit, as, isLinkStore, "a store to Linkname", "the entry is a symlink with a relative target (it keeps its spelling)")
+	} else {
+		c.R.OK(rule, base+"/relative-symlink-kept", c.P.Pos(lit.Pos()), "no absolute-path test of the link name of a shape this rule interprets")
+	}
 	c.R.Check(symArm >= 1 || len(sym) == 0, rule, base+"/absolute-symlink-prefix", c.P.Pos(lit.Pos()), "absolute symlink targets are re-rooted below the sub-root", "the target of an absolute symlink inside a sub-root is no longer re-rooted below the sub-root's name: in the composite view it points at the composite root's namespace")
 	c.R.Check(nonSym >= 1 && len(sym) > 0, rule, base+"/hardlink-prefix", c.P.Pos(lit.Pos()), "hard-link names (non-symlink arm) are prefixed", "the link name of a hard link inside a sub-root is not prefixed with the sub-root's name: it names a path outside the composite view")
 	for _, call := range c.P.CallsTo(lit, "freevar:fn") {
 		ok := joinWithDir(call.Common().Args[0], func(v ssa.Value) bool { _, isP := v.(*ssa.Parameter); return isP })
 		c.R.Check(ok, rule, c.siteName(call)+"/reported-path", c.pos(call), "the reported path is Join(sub-root name, p)", "the path reported for a sub-root entry lacks the sub-root's name")
+		if parts, isJ := c.joinParts(call.Common().Args[0]); isJ && len(parts) >= 2 {
+			c.R.Check(strings.HasPrefix(parts[len(parts)-1], "p:"), rule, c.siteName(call)+"/reported-path/order", c.pos(call), "the sub-walk's path is the last element of the Join", "the Join of the reported path has the sub-walk's path in front of the sub-root's name")
+		}
 	}
 }
 
